@@ -436,7 +436,7 @@ def unit(root='/repo'):
     ]
     opt_fields = ['no_readdir', 'seal_size', 'no_open', 'no_opendir', 'no_writeback', 'killpriv_v2']
     items.append(Group('impl VfsState {', [
-        Fn(MOD, 'impl VfsState', default_fn, props=P, canary=True, body_subst=[('super::MAX_VFS_INDEX', 'MAX_VFS_INDEX')],
+        Fn(MOD, 'impl VfsState', default_fn, props=P, canary=True, body_resub=[(r'\bsuper::MAX_VFS_INDEX\b', 'MAX_VFS_INDEX', 'every: path flattened (the constant is copied to module level)')],
            ensures=['r@ =~= Seq::new(256, |i: int| None::<IdMappingState>) // [C19.previous_version.default_len] one (absent) mapping for each of the 256 indices']),
     ]))
     items.append(Group('impl VfsOptions {', [
